@@ -2056,15 +2056,15 @@ MANIFEST = {
             "testing on shared DAGs; the caches of subst_bound and of subst's rec are modelled on the heap (subst's preceding subst_type and the "
             "abs_name_inst renaming are not). __copy__ is a model operation (copyRec, MStep.copy); deepcopy and pickle within one process are mirrored into the heap model "
             "as Term(t)-like events (correspondence only, no separate Lean operation); a pickle read by ANOTHER process is judged by the oracle "
-            "only (stream e) — the model's hash nest abstracts from the per-process string hash, which is exactly what the known finding "
-            "stale-hash:pickle:read-by-another-process is about (fixes/C03-4.patch). Infinite models outside the property.",
+            "only (stream e) — the model's hash nest abstracts from the per-process string hash, which is exactly what the finding "
+            "stale-hash:pickle:read-by-another-process was about (fixed in /repo by d4024a9, fixes/C03-4.patch). Infinite models outside the property.",
     "design_ref": "DESIGN.md 4/C03",
 }
 FINDINGS = [
-    {"status": "known", "key": "stale-hash:pickle:read-by-another-process", "fix": "fixes/C03-4.patch",
+    {"status": "fixed", "key": "stale-hash:pickle:read-by-another-process", "commit": "d4024a9",
      "what": "a term or type that was hashed, pickled and loaded by another process keeps the writer's memoised _hash_val (string hashes are "
              "per process), so it is == to the same term built by the reader but has a different hash: Comb(Var f, Var a) hashed, pickled "
-             "under PYTHONHASHSEED=1, read under PYTHONHASHSEED=2 (repair proposed in fixes/C03-4.patch: __setstate__ drops _hash_val)"},
+             "under PYTHONHASHSEED=1, read under PYTHONHASHSEED=2 (fixes/C03-4.patch: __setstate__ drops _hash_val)"},
     {"status": "fixed", "key": "history:stale-id-Term(t)", "commit": "4812387",
      "what": "Term(t) copied t._id: Term(Var('a', bool)) == Var('b', bool) was True once the temporary was freed and its address reused"},
     {"status": "fixed", "key": "history:stale-id-deepcopy", "commit": "a013fa9",
